@@ -334,7 +334,9 @@ class TransferableVoteDistributor:
                 retained = self.retainer.evaluate(totals_in_play)
         else:
             n_seats = self._retained_count(totals_in_play)
-            retained = votelib.evaluate.core.get_n_best(totals, n_seats)
+            retained = votelib.evaluate.core.get_n_best(
+                totals_in_play, n_seats
+            )
         if any(isinstance(e, votelib.evaluate.core.Tie) for e in retained):
             raise NotImplementedError('tie in STV elimination')
         return retained
